@@ -13,7 +13,7 @@ PLAN = dict(
              corrupt=["count", "idx", "runs", "uw", "un", "fq", "d1", "bnot", "tt", "asu", "aso", "ret", "out", "m", "ex",
                       "outs", "uw_r", "ud1_r", "ex_r"]),
         dict(glob="kf-*.ndjson", module="Trace_BitOps", cfg="Trace_BitOps.cfg", xmx="3g", timeout_thorough=3600,
-             corrupt=["bnot", "ret"]),
+             corrupt=["d1", "ret"]),
         dict(glob="builder-*.ndjson", module="Trace_BitOps", cfg="Trace_BitOps.cfg", stateful=True, reset_ops=["bnew"],
              xmx="3g", timeout_thorough=3600, corrupt=["bits", "len"]),
     ],
